@@ -614,7 +614,7 @@ def run_check(plugin_mod, tier, seed, replay=None):
             ev["coverage"]["coqchk_note"] = "coqchk did not report an empty axiom list; see summary"
     if hasattr(pl, "extra_evidence"):
         ev["coverage"].update(pl.extra_evidence())
-    if not replay:
+    if not replay and not os.environ.get("VERIF_NO_EVIDENCE"):      # (runs against a seeded change do not count as evidence)
         os.makedirs(os.path.join(VERIF, "evidence"), exist_ok=True)
         json.dump(ev, open(os.path.join(VERIF, "evidence", prop + ".json"), "w"), indent=1, default=str)
     if hasattr(pl, "cleanup"):
